@@ -1,0 +1,13 @@
+//go:build verif
+// +build verif
+
+// Contracts for package iolib (comment-only; read by /verif/govc).
+
+package iolib
+
+// Releasing a file object closes it and, for a temporary file created by
+// io.tmpfile (through the guarded safeio.TempFile), removes that file.  This is
+// accepted as resource release, not as access to the outside: assumed, and
+// listed as such in the evidence of property C08.
+//@ func (*File).cleanup
+//@   effects os-release
